@@ -100,6 +100,7 @@ func C12(c *Ctx) {
 	c12OwnSpec(c, "C12-R11")
 	c.R.Rule("C12-R12", "E7", "a compiled action stays bound to the interpreter that compiled it", 1)
 	c12CompiledBinding(c, "C12-R12")
+	c.shareRule("C15", "C15-R1", "C12-R13", "the specification a crew installs for a machine is resolved for that crew from the given source, not taken from storage that outlives the call (a compiled spec with native actions that close over one crew is not shared with another)")
 	c.shareRule("C20", "C20-R8", "C12-R10", "the analysis and rendering tools only read the specification they are given (a compiled spec that is being rendered may be serving machines at the same time)")
 	if ea, _ := c.ecmaAnalysis(); ea != nil {
 		if c.scriptIsolation("C12-R9", ea, false) == 0 {
